@@ -1596,7 +1596,18 @@ func (w *writeQueryFrame) buildFrame(framer *framer, streamID int) error {
 	return framer.writeQueryFrame(streamID, w.statement, &w.params, w.customPayload)
 }
 
+// tooMany refuses a count that does not fit the protocol's [short]: it would be written modulo 65536.
+func tooMany(what string, n int) error {
+	if n > 65535 {
+		return fmt.Errorf("gocql: %d %s, the protocol allows at most 65535", n, what)
+	}
+	return nil
+}
+
 func (f *framer) writeQueryFrame(streamID int, statement string, params *queryParams, customPayload map[string][]byte) error {
+	if err := tooMany("query values", len(params.values)); err != nil {
+		return err
+	}
 	if len(customPayload) > 0 {
 		f.payload()
 	}
@@ -1635,6 +1646,9 @@ func (e *writeExecuteFrame) buildFrame(fr *framer, streamID int) error {
 }
 
 func (f *framer) writeExecuteFrame(streamID int, preparedID []byte, params *queryParams, customPayload *map[string][]byte) error {
+	if err := tooMany("query values", len(params.values)); err != nil {
+		return err
+	}
 	if len(*customPayload) > 0 {
 		f.payload()
 	}
@@ -1686,6 +1700,13 @@ func (w *writeBatchFrame) buildFrame(framer *framer, streamID int) error {
 }
 
 func (f *framer) writeBatchFrame(streamID int, w *writeBatchFrame, customPayload map[string][]byte) error {
+	err := tooMany("batch statements", len(w.statements))
+	for i := 0; err == nil && i < len(w.statements); i++ {
+		err = tooMany("query values", len(w.statements[i].values))
+	}
+	if err != nil {
+		return err
+	}
 	if len(customPayload) > 0 {
 		f.payload()
 	}
